@@ -247,7 +247,7 @@ def _is_instance(obj: Any, type_: Any, type_vars: Dict[TypeVar_, Any], context: 
 def _matches_bound_type(obj: Any, bound_type: Any, type_vars: Dict[TypeVar_, Any], context: Dict[str, Any]) -> bool:
     """ A TypeVar is bound either to a plain class (the class of an earlier value) or to a type annotation. """
 
-    if isinstance(bound_type, type) and type(bound_type) != _ProtocolMeta:
+    if isinstance(bound_type, type) and type(bound_type) != _ProtocolMeta and bound_type is not Any:  # Any is a class since 3.11
         return isinstance(obj, bound_type)
 
     return _is_instance(obj=obj, type_=bound_type, type_vars=type_vars, context=context)
